@@ -16,6 +16,10 @@ PROP = dict(
     assumptions=[
         "attribute values are numbers (0..2, code points 97..99 under @char); nested relations only as produced by nest",
         "headings of at most 4 (random) / 3 (exhaustive) names per operand over a..f and @, @item, @char, @byte, @value, @foo; at most 4-5 rows",
+        "permuted physical column orders: computed operands (chains of <&> in both association orders, <->, <--, where) over projections of a "
+        "5-name universe with a distinct value range per column, 3-4 common attributes, all 8 operators, either side; systematic family: every "
+        "order of 3 and 4 names (quick: all orders of 3, the rotations of 4) against a literal with the same heading, a superset, a 3-name subset "
+        "and a chain in a rotated order. Relations rebuilt by =>, nest/unnest or SetBuilder get a sorted heading again (no permutation)",
         "operands with two members under one index of an array/string/byte array heading are not generated; results of "
         "that shape are class KF-superimposed",
     ],
